@@ -272,32 +272,81 @@ func sameStrings(a, b []string) bool {
 	return len(a) == 0 || reflect.DeepEqual(a, b)
 }
 
-// c19Render checks that the strings All() returns are exactly what is rendered, in order.
+// c19Targets: decoration lists of different node types and points, among them the End points the
+// restorer hands to go/printer through a node's Comment field (Field, ImportSpec, ValueSpec, TypeSpec).
+// The source holds one other comment, so that go/printer works from the file's comment list.
+const c19Src = "package p\n\nimport \"fmt\"\n\n// fixed\nvar v = fmt.Sprint()\n\ntype t struct {\n\ta int\n}\n\ntype u int\n\nfunc f(a int) {\n\tx()\n\tif a > 0 {\n\t\ty()\n\t}\n}\n"
+
+var c19Targets = []struct {
+	Name string
+	Get  func(f *dst.File) *dst.Decorations
+}{
+	{"ExprStmt.Start", func(f *dst.File) *dst.Decorations {
+		return &f.Decls[4].(*dst.FuncDecl).Body.List[0].(*dst.ExprStmt).Decs.Start
+	}},
+	{"ExprStmt.End", func(f *dst.File) *dst.Decorations {
+		return &f.Decls[4].(*dst.FuncDecl).Body.List[0].(*dst.ExprStmt).Decs.End
+	}},
+	{"IfStmt.Cond", func(f *dst.File) *dst.Decorations {
+		return &f.Decls[4].(*dst.FuncDecl).Body.List[1].(*dst.IfStmt).Decs.Cond
+	}},
+	{"ImportSpec.End", func(f *dst.File) *dst.Decorations {
+		return &f.Decls[0].(*dst.GenDecl).Specs[0].(*dst.ImportSpec).Decs.End
+	}},
+	{"ValueSpec.End", func(f *dst.File) *dst.Decorations {
+		return &f.Decls[1].(*dst.GenDecl).Specs[0].(*dst.ValueSpec).Decs.End
+	}},
+	{"ValueSpec.Assign", func(f *dst.File) *dst.Decorations {
+		return &f.Decls[1].(*dst.GenDecl).Specs[0].(*dst.ValueSpec).Decs.Assign
+	}},
+	{"Field.End", func(f *dst.File) *dst.Decorations {
+		return &f.Decls[2].(*dst.GenDecl).Specs[0].(*dst.TypeSpec).Type.(*dst.StructType).Fields.List[0].Decs.End
+	}},
+	{"Field.Start", func(f *dst.File) *dst.Decorations {
+		return &f.Decls[2].(*dst.GenDecl).Specs[0].(*dst.TypeSpec).Type.(*dst.StructType).Fields.List[0].Decs.Start
+	}},
+	{"TypeSpec.End", func(f *dst.File) *dst.Decorations {
+		return &f.Decls[3].(*dst.GenDecl).Specs[0].(*dst.TypeSpec).Decs.End
+	}},
+	{"TypeSpec.Name", func(f *dst.File) *dst.Decorations {
+		return &f.Decls[3].(*dst.GenDecl).Specs[0].(*dst.TypeSpec).Decs.Name
+	}},
+	{"FuncDecl.Params", func(f *dst.File) *dst.Decorations {
+		return &f.Decls[4].(*dst.FuncDecl).Decs.Params
+	}},
+	{"File.Name", func(f *dst.File) *dst.Decorations { return &f.Decs.Name }},
+}
+
+// c19Render checks that the strings All() returns are exactly what is rendered, in order, at every target.
 func c19Render(decs []string) string {
-	f, err := decorator.Parse("package p\n\nfunc f() {\n\tx()\n}\n")
-	if err != nil {
-		return "harness: " + err.Error()
-	}
-	st := f.Decls[0].(*dst.FuncDecl).Body.List[0].(*dst.ExprStmt)
-	st.Decs.Start.Replace(decs...)
-	want := st.Decs.Start.All()
-	var buf bytes.Buffer
-	if err := decorator.Fprint(&buf, f); err != nil {
-		return "print failed: " + err.Error()
-	}
-	fset := token.NewFileSet()
-	af, err := parser.ParseFile(fset, "", buf.Bytes(), parser.ParseComments)
-	if err != nil {
-		return "printed text does not parse: " + err.Error()
-	}
-	var got []string
-	for _, cg := range af.Comments {
-		for _, cm := range cg.List {
-			got = append(got, cm.Text)
+	for _, t := range c19Targets {
+		f, err := decorator.Parse(c19Src)
+		if err != nil {
+			return "harness: " + err.Error()
 		}
-	}
-	if !sameStrings(got, want) {
-		return fmt.Sprintf("All() = %q but rendered comments are %q", want, got)
+		d := t.Get(f)
+		d.Replace(decs...)
+		want := d.All()
+		var buf bytes.Buffer
+		if err := decorator.Fprint(&buf, f); err != nil {
+			return t.Name + ": print failed: " + err.Error()
+		}
+		fset := token.NewFileSet()
+		af, err := parser.ParseFile(fset, "", buf.Bytes(), parser.ParseComments)
+		if err != nil {
+			return t.Name + ": printed text does not parse: " + err.Error()
+		}
+		var got []string
+		for _, cg := range af.Comments {
+			for _, cm := range cg.List {
+				if cm.Text != "// fixed" {
+					got = append(got, cm.Text)
+				}
+			}
+		}
+		if !sameStrings(got, want) {
+			return fmt.Sprintf("%s: All() = %q but rendered comments are %q", t.Name, want, got)
+		}
 	}
 	return ""
 }
